@@ -58,8 +58,10 @@ def config_from(options):
         else:
             raise KeyError(k)
     # what constructing the configuration dataclasses with these values does
-    out.format.validate()
-    out.validate()
+    with warnings.catch_warnings():
+        warnings.simplefilter("ignore")
+        out.format.validate()
+        out.validate()
     return cfg
 
 
